@@ -139,6 +139,7 @@ def main():
     install()
     results = []
     gen = None
+    slots = {}
     real_stdout = sys.stdout
     for step in job["steps"]:
         op = step["op"]
@@ -150,12 +151,16 @@ def main():
                 from pathlib import Path
                 mod = importlib.import_module("protocol_code_generator.generate.code_generator")
                 gen = mod.ProtocolCodeGenerator(Path(step["xml"]))
+                if step.get("slot"):
+                    slots[step["slot"]] = gen
                 r["generator_file"] = mod.__file__
             elif op == "generate":
                 from pathlib import Path
                 S.reset_counters()
                 S.fault = step.get("fault")
                 buf = io.StringIO()
+                if step.get("slot"):
+                    gen = slots[step["slot"]]
                 try:
                     with contextlib.redirect_stdout(buf):
                         gen.generate(Path(step["out"]))
